@@ -1,5 +1,6 @@
 """Compiles nodes from the parser into Python code."""
 
+import math
 import typing as t
 from contextlib import contextmanager
 from functools import update_wrapper
@@ -127,7 +128,11 @@ def has_safe_repr(value: t.Any) -> bool:
     if value is None or value is NotImplemented or value is Ellipsis:
         return True
 
-    if type(value) in {bool, int, float, complex, range, str, Markup}:
+    if type(value) is float:
+        # repr of inf and nan is a name, not a literal
+        return math.isfinite(value)
+
+    if type(value) in {bool, int, complex, range, str, Markup}:
         return True
 
     if type(value) in {tuple, list, set, frozenset}:
@@ -1687,6 +1692,10 @@ class CodeGenerator(NodeVisitor):
         val = node.as_const(frame.eval_ctx)
         if isinstance(val, float):
             rv = str(val)
+
+            if not math.isfinite(val):
+                # A float literal too large for a float reads as inf.
+                rv = f"float({rv!r})"
         else:
             rv = repr(val)
 
